@@ -85,8 +85,7 @@ deriving Repr, DecidableEq
 
 /-- BK-0010 monitor reading: pilot (≥ 256 pulses), marker, '1', short pilot, marker, '1',
     20 header bytes, short pilot, marker, '1', data, 2 checksum bytes -/
-def demodNormal (samples : List Nat) : Option TapeFile := do
-  let ps := pulses samples
+def demodNormalP (ps : List (Nat × Nat)) : Option TapeFile := do
   let (n0, ps) ← skipToMarker 7 ps
   if n0 < 256 then none
   let (one1, ps) ← readOne ps
@@ -107,10 +106,11 @@ where
     | p :: rest => some (decide (3 ≤ p.1 ∧ p.1 ≤ 6), rest)
     | [] => none
 
+def demodNormal (samples : List Nat) : Option TapeFile := demodNormalP (pulses samples)
+
 /-- the turbo format: pilot (≥ 256 pulses), marker, 20 header bytes, data, 2 checksum bytes,
     one pulse per bit -/
-def demodTurbo (samples : List Nat) : Option TapeFile := do
-  let ps := pulses samples
+def demodTurboP (ps : List (Nat × Nat)) : Option TapeFile := do
   let (n0, ps) ← skipToMarker 8 ps
   if n0 < 256 then none
   let (hb, ps) ← readBitsTurbo 160 ps
@@ -121,5 +121,7 @@ def demodTurbo (samples : List Nat) : Option TapeFile := do
   if ps.length ≤ 4 then
     some ⟨rd16 hdr, len, (hdr.drop 4).take 16, bytes.take len, rd16 (bytes.drop len), n0⟩
   else none
+
+def demodTurbo (samples : List Nat) : Option TapeFile := demodTurboP (pulses samples)
 
 end Pdpy11.Spec.Tape
